@@ -250,7 +250,7 @@ func TestC07WriterTimestamps(t *testing.T) {
 		if err != nil {
 			t.Fatalf("BROKEN: %v", err)
 		}
-		n := rapid.IntRange(2, 60).Draw(t, "n")
+		n := rapid.OneOf(rapid.IntRange(2, 60), rapid.IntRange(260, 700)).Draw(t, "n")
 		var prev, first uint64
 		for i := 0; i < n; i++ {
 			before := since2015(timeNow())
